@@ -39,7 +39,10 @@ func (f *Fosite) WriteAuthorizeError(ctx context.Context, rw http.ResponseWriter
 		return
 	}
 
-	redirectURI := ar.GetRedirectURI()
+	// Work on a copy: the request (and, for a pushed authorization request, the stored session it was hydrated from)
+	// keeps the redirect URI it was validated with.
+	redirectURICopy := *ar.GetRedirectURI()
+	redirectURI := &redirectURICopy
 
 	// The endpoint URI MUST NOT include a fragment component.
 	redirectURI.Fragment = ""
